@@ -67,6 +67,15 @@ technique_round3["C05"] += ", stale-handle rule for loops that replace the node 
 technique_round3["C09"] += ", read-modify-write rule for document-level accumulators in the parse context"
 technique_round3["C16"] += ", dominance of the list sort over attaching the list"
 technique_round3["C19"] += ", ordering rule (copy parent state before adding keys) in the deriving methods"
+technique_round3["C01"] += ", window rule through helper reads with both-edge guard normalisation, sibling agreement of comparisons with a named byte constant"
+technique_round3["C02"] += ", key-provenance rule for lower-case word tables"
+technique_round3["C06"] += ", global-rooted write rule over constructors and option constructors"
+technique_round3["C08"] += ", segment-provenance rule for source slices in render functions"
+technique_round3["C10"] += ", allocation-rooted application of functional options in constructors, segment-provenance rule for source slices in render functions"
+technique_round3["C11"] += ", allow-list of registration constructors for the options an Extend method passes on"
+technique_round3["C13"] += ", path rule: end pointers stored wherever the unlinked child was first or last"
+technique_round3["C15"] += ", allocation-rooted application of functional options in the heading parser constructors"
+technique_round3["C16"] += ", single-allocation rule for the table of running ordinals"
 for k, v in technique_round3.items():
     technique[k] = technique[k] + "; " + v
 
